@@ -49,6 +49,65 @@ def _named(t):
     return t
 
 
+def default_key_problem(schema):
+    """Default values (of arguments, directive arguments, input fields) are
+    what resolvers receive and what introspection prints: an input-object
+    default may only name fields its type (still) has -- under the GraphQL
+    or the Python name."""
+    def walk(t, value, where):
+        t = t.type if isinstance(t, NonNullType) else t
+        if value is None:
+            return None
+        if isinstance(t, ListType):
+            if isinstance(value, (list, tuple)):
+                for v in value:
+                    r = walk(t.type, v, where)
+                    if r:
+                        return r
+                return None
+            return walk(t.type, value, where)
+        if isinstance(t, InputObjectType) and isinstance(value, dict):
+            known = {}
+            for f in t.fields:
+                known[f.name] = f
+                known[f.python_name] = f
+            for k, v in value.items():
+                if k not in known:
+                    return "%s: the default names %r, which input type %s " \
+                        "does not have (fields: %r)" % (
+                            where, k, t.name, sorted(f.name for f in t.fields))
+                r = walk(known[k].type, v, where)
+                if r:
+                    return r
+        return None
+
+    def args(where, arguments):
+        for a in arguments:
+            if a.has_default_value:
+                r = walk(a.type, a.default_value, "%s(%s)" % (where, a.name))
+                if r:
+                    return r
+        return None
+
+    for name, t in sorted(schema.types.items()):
+        if name.startswith("__"):
+            continue
+        if isinstance(t, (ObjectType, InterfaceType)):
+            for f in t.fields:
+                r = args("%s.%s" % (name, f.name), f.arguments)
+                if r:
+                    return r
+        if isinstance(t, InputObjectType):
+            r = args(name, t.fields)
+            if r:
+                return r
+    for dname, d in sorted(schema.directives.items()):
+        r = args("@" + dname, d.arguments)
+        if r:
+            return r
+    return None
+
+
 def _abstract_use_problem(schema):
     """The code-built pool schemas resolve ``Thing`` / ``AB`` with functions
     returning type objects: as long as a live schema still has those types
@@ -676,7 +735,47 @@ def _rename_key(key):
     return key
 
 
-def _attr_diff(src_attrs, new_attrs, renames):
+def _dropped_keys(a, b):
+    """Names of the dict keys removed (at any depth) to get ``b`` from ``a``;
+    None when ``b`` is not ``a`` with keys removed."""
+    if isinstance(a, dict) and isinstance(b, dict):
+        if not set(b) <= set(a):
+            return None
+        out = set(a) - set(b)
+        for k in b:
+            d = _dropped_keys(a[k], b[k])
+            if d is None:
+                return None
+            out |= d
+        return out
+    if isinstance(a, (list, tuple)) and isinstance(b, (list, tuple)):
+        if len(a) != len(b):
+            return None
+        out = set()
+        for x, y in zip(a, b):
+            d = _dropped_keys(x, y)
+            if d is None:
+                return None
+            out |= d
+        return out
+    return set() if a == b and type(a) is type(b) else None
+
+
+def _default_minus_hidden(va, vb, hidden_keys):
+    """A default that lost exactly (some of) the hidden input fields was
+    targeted by the operation that hid them."""
+    if not hidden_keys:
+        return False
+    try:
+        import ast as _pyast
+        d = _dropped_keys(_pyast.literal_eval(va), _pyast.literal_eval(vb))
+    except (ValueError, SyntaxError):
+        return False
+    return d is not None and bool(d) and (
+        "*" in hidden_keys or d <= hidden_keys)
+
+
+def _attr_diff(src_attrs, new_attrs, renames, hidden_keys=None):
     """First untouched attribute that changed: (attribute, detail)."""
     for key, a in src_attrs.items():
         nkey = _rename_key(key) if renames else key
@@ -689,6 +788,10 @@ def _attr_diff(src_attrs, new_attrs, renames):
                 same = va is vb
             else:
                 same = va == vb
+            if not same and attr == "default" and isinstance(va, str) \
+                    and isinstance(vb, str) and _default_minus_hidden(
+                        va, vb, hidden_keys):
+                same = True
             if not same:
                 return attr, "%r: %s was %r, now %r" % (
                     key, attr, getattr(va, "tag", va), getattr(vb, "tag", vb))
@@ -1049,6 +1152,13 @@ def run_machine(draws, state, tier):
                  "%s of live[%d] (%s): %s" % (opname, li, src.origin, p[1]))
             break
 
+        # ---- removal: default values name existing input fields only ------
+        p = default_key_problem(new)
+        if p:
+            fail("removed_reachable", ("input_field", "default-value"),
+                 "%s of live[%d] (%s): %s" % (opname, li, src.origin, p))
+            break
+
         # ---- removal -------------------------------------------------------
         all_hidden = set(src.hidden)
         if op == 6 or ext_directives:
@@ -1159,7 +1269,15 @@ def run_machine(draws, state, tier):
 
         # ---- preservation --------------------------------------------------
         new_attrs = attributes(new)
-        d = _attr_diff(src.attrs, new_attrs, op in (2, 3))
+        hidden_keys = set()
+        for h in all_hidden:
+            if h[0] == "input_field":
+                hidden_keys |= {h[2], camel(h[2])}
+                if hidden is not None and hidden[0] == "input_field":
+                    hidden_keys.add(hidden[2])
+            elif h[0] == "type":
+                hidden_keys.add("*")  # every input field of that type
+        d = _attr_diff(src.attrs, new_attrs, op in (2, 3), hidden_keys)
         if d:
             fail("attribute_lost", (opname, d[0]),
                  "%s of live[%d] (%s): %s" % (opname, li, src.origin, d[1]))
